@@ -30,7 +30,30 @@ fn letter(t: &PointType) -> char {
     }
 }
 
+/// the k-th permutation (0..24) of the four attribute groups of a <point>: 0 = the order norad's writer uses
+fn perm4(k: usize) -> [usize; 4] {
+    let mut items = vec![0usize, 1, 2, 3];
+    let mut out = [0usize; 4];
+    let mut k = k % 24;
+    let mut f = 6;
+    for i in 0..4 {
+        let idx = k / f;
+        k %= f;
+        if i < 3 {
+            f /= (3 - i).max(1);
+        }
+        out[i] = items.remove(idx);
+    }
+    out
+}
+
 pub fn document(fmt: u32, contours: &[String]) -> String {
+    document_o(fmt, 0, contours)
+}
+
+/// `order`: which permutation of the attribute groups (x y | type | smooth | name) every point is written in
+/// (acceptance must not depend on it: third-party writers sort attributes differently)
+pub fn document_o(fmt: u32, order: usize, contours: &[String]) -> String {
     let mut s = String::new();
     s.push_str("<?xml version=\"1.0\" encoding=\"UTF-8\"?>\n");
     s.push_str(&format!("<glyph name=\"a\" format=\"{}\">\n<outline>\n", fmt));
@@ -47,18 +70,26 @@ pub fn document(fmt: u32, contours: &[String]) -> String {
             let ch = chars[k];
             let named = k + 1 < chars.len() && chars[k + 1] == '\'';
             k += if named { 2 } else { 1 };
-            s.push_str(&format!("<point x=\"{}\" y=\"{}\"", ci, pi));
+            s.push_str("<point");
+            let mut groups: [String; 4] = Default::default();
+            groups[0] = format!(" x=\"{}\" y=\"{}\"", ci, pi);
             // an on-curve "line"/"offcurve" distinction is by the `type` attribute; offcurve may be
             // written without the attribute (the default), exercised for every second off-curve
             if !(ch.to_ascii_lowercase() == 'o' && pi % 2 == 1) {
-                s.push_str(&format!(" type=\"{}\"", typ_name(ch)));
+                groups[1] = format!(" type=\"{}\"", typ_name(ch));
             }
             if ch.is_ascii_uppercase() {
-                s.push_str(" smooth=\"yes\"");
+                groups[2] = " smooth=\"yes\"".to_string();
+            } else if order != 0 && pi % 3 == 2 {
+                // the default spelt out (only in the permuted documents, so that order 0 stays what it was)
+                groups[2] = " smooth=\"no\"".to_string();
             }
             if named {
                 // a name full of XML-special characters, written with entities
-                s.push_str(&format!(" name=\"{}\"", point_name(ci, pi).replace('&', "&amp;").replace('<', "&lt;").replace('"', "&quot;")));
+                groups[3] = format!(" name=\"{}\"", point_name(ci, pi).replace('&', "&amp;").replace('<', "&lt;").replace('"', "&quot;"));
+            }
+            for g in perm4(order) {
+                s.push_str(&groups[g]);
             }
             s.push_str("/>\n");
             pi += 1;
@@ -74,7 +105,11 @@ pub fn point_name(ci: usize, pi: usize) -> String {
 }
 
 pub fn observe(fmt: u32, contours: &[String]) -> String {
-    let doc = document(fmt, contours);
+    observe_o(fmt, 0, contours)
+}
+
+pub fn observe_o(fmt: u32, order: usize, contours: &[String]) -> String {
+    let doc = document_o(fmt, order, contours);
     match guarded(|| Glyph::parse_raw(doc.as_bytes())) {
         Err(_) => "panic".to_string(),
         Ok(Err(e)) => {
@@ -121,8 +156,17 @@ pub fn observe(fmt: u32, contours: &[String]) -> String {
 }
 
 fn emit(out: &mut dyn Write, fmt: u32, contours: &[String]) {
-    let obs = observe(fmt, contours);
-    writeln!(out, "C11 {} :{} => {}", fmt, contours.join(","), obs).unwrap();
+    emit_o(out, fmt, 0, contours)
+}
+
+/// the format token is `<fmt>` or `<fmt>@<order>`; the model's prediction does not depend on the order
+fn emit_o(out: &mut dyn Write, fmt: u32, order: usize, contours: &[String]) {
+    let obs = observe_o(fmt, order, contours);
+    if order == 0 {
+        writeln!(out, "C11 {} :{} => {}", fmt, contours.join(","), obs).unwrap();
+    } else {
+        writeln!(out, "C11 {}@{} :{} => {}", fmt, order, contours.join(","), obs).unwrap();
+    }
 }
 
 fn enumerate(len: usize, f: &mut dyn FnMut(&str)) {
@@ -163,6 +207,28 @@ pub fn gen(tier: &str, seed: u64, out: &mut dyn Write) {
                         .map(|(j, c)| if i == j { c.to_ascii_uppercase() } else { c })
                         .collect();
                     emit(out, 2, &[v]);
+                }
+            }
+        });
+    }
+    // attribute order: every permutation of (x y | type | smooth | name) for all sequences up to length 4, each with every
+    // single-position smooth variant and with the first point named, both formats (a writer that sorts attributes
+    // alphabetically puts `smooth` before `type`; acceptance must not depend on that)
+    for len in 1..=4 {
+        enumerate(len, &mut |s0| {
+            for i in 0..=len {
+                let mut v: String = String::new();
+                for (j, c) in s0.chars().enumerate() {
+                    v.push(if i == j { c.to_ascii_uppercase() } else { c });
+                    if j == 0 && len % 2 == 0 {
+                        v.push('\'');
+                    }
+                }
+                for order in 1..24 {
+                    emit_o(out, 2, order, &[v.clone()]);
+                    if len <= 2 {
+                        emit_o(out, 1, order, &[v.clone()]);
+                    }
                 }
             }
         });
@@ -226,6 +292,7 @@ pub fn gen(tier: &str, seed: u64, out: &mut dyn Write) {
             }
             cs.push(s);
         }
-        emit(out, if rng.chance(1, 5) { 1 } else { 2 }, &cs);
+        let order = if rng.chance(1, 2) { 0 } else { rng.below(24) };
+        emit_o(out, if rng.chance(1, 5) { 1 } else { 2 }, order, &cs);
     }
 }
